@@ -17,6 +17,8 @@ func simWorld(rc *kernel.RunCtx) {
 		c11World(rc)
 	case "C12":
 		c12World(rc)
+	case "C13":
+		c13World(rc)
 	case "C14":
 		c14World(rc)
 	default:
